@@ -179,10 +179,22 @@ fn handle_put<R: Read, W: Write>(
                 }
             },
             Cas::Conflict => {
-                // Never overwrite on a stale CAS — land a conflict-copy.
+                // Never overwrite on a stale CAS — land a conflict-copy. Its name carries only a
+                // prefix of the hash, so another file may already live there (a file a client
+                // committed under that very name, or a prefix collision): that is committed
+                // content too and must not be replaced. Re-landing the same bytes is fine;
+                // otherwise take the next free `-N` name (we hold the commit lock).
                 let mut cn = dst.as_os_str().to_owned();
                 cn.push(format!(".conflict-{}", super::wire::short_hash(&hash)));
-                match std::fs::rename(&tmp, PathBuf::from(cn)) {
+                let mut target = PathBuf::from(&cn);
+                let mut n = 0u32;
+                while std::fs::symlink_metadata(&target).is_ok() && current_hash(&target) != Some(hash) {
+                    n += 1;
+                    let mut alt = cn.clone();
+                    alt.push(format!("-{n}"));
+                    target = PathBuf::from(alt);
+                }
+                match std::fs::rename(&tmp, target) {
                     Ok(()) => Response::PutResult {
                         committed: false,
                         current,
